@@ -8,6 +8,8 @@ frame and nothing else), answer-combination lemmas.
 -/
 namespace DaliVerif.GearSeq
 open Prog
+set_option linter.unusedSimpArgs false
+set_option linter.unusedVariables false
 
 theorem run_bind {σ α β : Type} (step : σ → Cmd → Resp × σ) (p : Prog α) (f : α → Prog β) (s : σ) :
     (p.bind f).run step s =
@@ -51,4 +53,42 @@ theorem runBus_st {α : Type} (p : Prog α) (b : Bus) :
     rw [ih, Bus.exec_st, List.map_map]
     rfl
   | note n k ih => simp only [Prog.run]; exact ih b
+theorem filterMap_filter_of_none {α β : Type} (f : α → Option β) (sel : α → Bool) (l : List α)
+    (h : ∀ u, sel u = false → f u = none) :
+    l.filterMap f = (l.filter sel).filterMap f := by
+  induction l with
+  | nil => rfl
+  | cons x xs ih =>
+    by_cases hx : sel x = true
+    · simp [List.filterMap_cons, List.filter_cons, hx, ih]
+    · have hx' : sel x = false := by simpa using hx
+      simp [List.filterMap_cons, List.filter_cons, hx', h x hx', ih]
+
+/-- only the units a frame is addressed to can answer it -/
+theorem frame_resp_filter (b : Bus) (c : Cmd) (sel : Gear → Bool)
+    (h : ∀ u, sel u = false → (u.step c).1 = none) :
+    (Bus.frame b c).1 = combine ((b.filter sel).filterMap (fun u => (u.step c).1)) := by
+  unfold Bus.frame
+  simp only
+  rw [filterMap_filter_of_none _ sel b h]
+
+theorem filter_map_of_pres {α : Type} (f : α → α) (sel : α → Bool) (l : List α)
+    (h : ∀ u, sel (f u) = sel u) :
+    (l.map f).filter sel = (l.filter sel).map f := by
+  induction l with
+  | nil => rfl
+  | cons x xs ih =>
+    simp only [List.map_cons, List.filter_cons, h x]
+    split <;> simp [ih]
+
+theorem all_zip_map {α : Type} (l : List α) (f : α → α) (P : α × α → Bool) :
+    ((l.zip (l.map f)).all P) = l.all (fun u => P (u, f u)) := by
+  induction l with
+  | nil => rfl
+  | cons x xs ih => simp [List.zip_cons_cons, List.all_cons, ih]
+
+theorem exec_of_dt0 (b : Bus) (c : Cmd) (h : c.devicetype = 0) : Bus.exec b c = Bus.frame b c := by
+  unfold Bus.exec; simp [h]
+
+
 end DaliVerif.GearSeq
